@@ -56,3 +56,7 @@ package ice
 //@   site call setSelectedPair#1 assert C03 C06 reselects-only-the-superseded-selected-pair: a.getSelectedPair() == pair && arg1 == replacement && pair.Remote == oldRemote
 //@   site call replacePairRemote#1 assert C06 replaces-only-pairs-of-the-old-remote: arg0 == pair && pair.Remote == oldRemote && arg1 == newRemote
 //@   site call setPriorityOverride#1 assert C06 keeps-its-priority: arg0 == replacement && arg1 == oldPriority
+
+// The checklist and its index are replaced wholesale only when a generation ends.
+//@ enumerate C06 stores ice.Agent.checklist in createAgentBase, (*Agent).updateConnectionState, (*Agent).addPair, (*Agent).Restart
+//@ enumerate C06 stores ice.Agent.pairsByID in createAgentBase, (*Agent).updateConnectionState, (*Agent).Restart
